@@ -8,8 +8,11 @@
 
   Model: an explicit heap of individuals (`Addr → Option P`, `none` = destroyed; addresses are
   never reused, so a dangling pointer reads `none`), the caller's individuals (`ext`), and model
-  objects `Obj` = (flavour, address of the own cell `ind_`, the interpreter's pointer, and a GHOST
-  program: the individual the object stands for).  What each special member function does with
+  objects `Obj` = (flavour, address of the own cell `ind_`, the interpreter's pointer, the individual
+  the interpreter was BUILT for – `interpreter<i_mep>` dimensions its evaluation cache on the program
+  it is constructed with, so it is more than a pointer: it must be rebuilt whenever the individual
+  it points at is replaced –, and two GHOSTS: the individual the object stands for and whether the
+  object is in a moved-from state).  What each special member function does with
   `ind_` / `int_` is DATA (`Smf`): lean/Vita/C08/GenStorage.lean is generated from the clang AST of
   the class, so `= default` on an assignment, a swap of the interpreters, … change the table.
   A history is any sequence of `Op`s: the caller creates / overwrites / destroys individuals,
@@ -63,8 +66,12 @@ structure Obj (P : Type) where
   cell : Addr
   /-- `int_.program()` -/
   ptr : Addr
+  /-- the individual `int_` was constructed for (its cache is dimensioned on it) -/
+  built : Option P
   /-- GHOST: the individual this object stands for -/
   prog : P
+  /-- GHOST: not in a moved-from ("valid but unspecified") state -/
+  valid : Bool
 
 structure St (P : Type) where
   heap : Addr → Option P
@@ -107,22 +114,31 @@ def applyInd (junk : P → P) (a : IndAct) (heap : Addr → Option P) (t s : Obj
     | _ => (heap, s.prog)
   else (heap, s.prog)
 
-/-- effect on the interpreters: new pointer of target and of source -/
-def applyPtr (a : PtrAct) (t s : Obj P) : Addr × Addr :=
+/-- does the action leave the source in a moved-from state? -/
+def IndAct.movesFrom : IndAct → Bool
+  | .move | .swap => true
+  | _ => false
+
+/-- effect on the interpreters: new (pointer, built-for) of target and of source; `heap` is the heap
+    AFTER the individuals have been copied / moved (a re-seated interpreter is built for what the own
+    cell now holds) -/
+def applyPtr (a : PtrAct) (heap : Addr → Option P) (t s : Obj P) : (Addr × Option P) × (Addr × Option P) :=
   match a with
-  | .keep => (t.ptr, s.ptr)
-  | .seatOwn => (t.cell, s.ptr)
-  | .seatParam => (t.ptr, s.ptr)
-  | .copyPtr => (s.ptr, s.ptr)
-  | .swapPtr => (s.ptr, t.ptr)
+  | .keep => ((t.ptr, t.built), (s.ptr, s.built))
+  | .seatOwn => ((t.cell, heap t.cell), (s.ptr, s.built))
+  | .seatParam => ((t.ptr, t.built), (s.ptr, s.built))
+  | .copyPtr => ((s.ptr, s.built), (s.ptr, s.built))
+  | .swapPtr => ((s.ptr, s.built), (t.ptr, t.built))
 
 /-- run member `m` with target `t` (object number `i`) and source `s` (object number `j`) -/
 def runMember (junk : P → P) (m : Member) (st : St P) (i j : Nat) (t s : Obj P) : St P :=
   let r := applyInd junk m.ind st.heap t s
-  let q := applyPtr m.ptr t s
-  -- GHOST of the target: after `t(s)` / `t = s` the object `t` stands for the individual of `s`
-  let t' : Obj P := { t with ptr := q.1, prog := s.prog }
-  let s' : Obj P := { s with ptr := q.2, prog := r.2 }
+  let q := applyPtr m.ptr r.1 t s
+  -- GHOSTS of the target: after `t(s)` / `t = s` the object `t` stands for the individual of `s` and is
+  -- a fully-fledged object again; a source that has been moved from / swapped with is not
+  let t' : Obj P := { t with ptr := q.1.1, built := q.1.2, prog := s.prog, valid := true }
+  let s' : Obj P := { s with ptr := q.2.1, built := q.2.2, prog := r.2,
+                             valid := s.valid && !(t.stored && s.stored && m.ind.movesFrom) }
   { st with heap := r.1, objs := upd (upd st.objs j (some s')) i (some t') }
 
 /-- a new object (number `st.nobj`) built from object `j` with member `m` -/
@@ -130,7 +146,8 @@ def constructFrom (junk : P → P) (m : Member) (st : St P) (j : Nat) : St P :=
   match st.objs j with
   | none => st
   | some s =>
-    let t0 : Obj P := { stored := s.stored, cell := if s.stored then st.next else 0, ptr := 0, prog := s.prog }
+    let t0 : Obj P := { stored := s.stored, cell := if s.stored then st.next else 0, ptr := 0, built := none,
+                        prog := s.prog, valid := true }
     let st1 : St P := { st with next := st.next + 1, nobj := st.nobj + 1 }
     runMember junk m st1 st.nobj j t0 s
 
@@ -152,12 +169,12 @@ def step (tbl : Bool → Smf) (junk : P → P) (st : St P) : Op P → St P
         let m := (tbl stored).ctor
         let c := if stored then st.next else 0
         let heap' := if stored then upd st.heap c (if m.ind = .copyParam then some p else none) else st.heap
-        let ptr := match m.ptr with
-          | .seatOwn => c
-          | .seatParam => a
-          | _ => 0
+        let pb : Addr × Option P := match m.ptr with
+          | .seatOwn => (c, heap' c)
+          | .seatParam => (a, some p)
+          | _ => (0, none)
         { st with heap := heap', next := st.next + 1,
-                  objs := upd st.objs st.nobj (some ⟨stored, c, ptr, p⟩), nobj := st.nobj + 1 }
+                  objs := upd st.objs st.nobj (some ⟨stored, c, pb.1, pb.2, p, true⟩), nobj := st.nobj + 1 }
       else st
   | .copyConstruct j => match st.objs j with
     | none => st
@@ -177,8 +194,11 @@ def step (tbl : Bool → Smf) (junk : P → P) (st : St P) : Op P → St P
 
 def run (tbl : Bool → Smf) (junk : P → P) (h : List (Op P)) : St P := h.foldl (step tbl junk) St.init
 
-/-- what the model object predicts with: the individual its interpreter points at -/
-def St.read (st : St P) (i : Nat) : Option P := (st.objs i).bind (fun o => st.heap o.ptr)
+/-- what the model object predicts with: the individual its interpreter points at – provided it is
+    alive and is the one the interpreter was built for (otherwise the interpreter reads a destroyed
+    object or indexes its cache out of bounds: no value) -/
+def St.read [DecidableEq P] (st : St P) (i : Nat) : Option P :=
+  (st.objs i).bind (fun o => if st.heap o.ptr = o.built then st.heap o.ptr else none)
 
 /-! ### well-formed tables -/
 
@@ -186,9 +206,10 @@ def St.read (st : St P) (i : Nat) : Option P := (st.objs i).bind (fun o => st.he
     the OWN copy -/
 def okCtorMember (m : Member) : Bool := (m.ind == .copy || m.ind == .move) && m.ptr == .seatOwn
 
-/-- an assignment may also leave the interpreter alone (it is already bound to the own copy) -/
+/-- … and so must an assignment: leaving the interpreter alone keeps the pointer right but not the
+    interpreter (built for the OLD individual) -/
 def okAssignMember (m : Member) : Bool :=
-  (m.ind == .copy || m.ind == .move) && (m.ptr == .seatOwn || m.ptr == .keep)
+  (m.ind == .copy || m.ind == .move) && m.ptr == .seatOwn
 
 /-- `S = true` : every special member function re-seats the interpreter on the stored individual -/
 def WellSeated (t : Smf) : Bool :=
@@ -200,8 +221,9 @@ def WellRef (t : Smf) : Bool :=
   !t.stored && t.ctor == ⟨.none, .seatParam⟩ &&
   t.copyCtor.ptr == .copyPtr && t.moveCtor.ptr == .copyPtr && t.copyAssign.ptr == .copyPtr && t.moveAssign.ptr == .copyPtr
 
-/-- the documented precondition of the `S = false` flavour: the caller does not overwrite or destroy an
-    individual a live reference-only model points at -/
+/-- the documented precondition of the `S = false` flavour ("the lifetime of `ind` must extend beyond
+    that of the interpreter"): the caller does not overwrite or destroy an individual a live
+    reference-only model points at -/
 def opSafe (st : St P) : Op P → Prop
   | .setInd a _ => ∀ i o, st.objs i = some o → o.stored = false → o.ptr ≠ a
   | .delInd a => ∀ i o, st.objs i = some o → o.stored = false → o.ptr ≠ a
